@@ -254,6 +254,54 @@ def normalise_crashes(obs_path, cases, defaults):
 
 
 # ------------------------------------------------------------------------------------------
+# E0: the environment model ScaleInfo.tla against the real scale-info derive
+
+def _e0_strip(reg):
+    out = []
+    for e in reg:
+        e = json.loads(json.dumps(e))
+        e["docs"] = []
+        d = e["def"]
+        fls = []
+        if d["k"] == "comp":
+            fls = [d["fields"]]
+        if d["k"] == "var":
+            for v in d["variants"]:
+                v["docs"] = []
+                fls.append(v["fields"])
+        for fl in fls:
+            for f in fl:
+                f["docs"] = []
+                tn = f["tn"].replace(" ", "")
+                # the corpus spells some types with a path or lifetime; the spelling is source text, not behaviour
+                odd = ("'" in tn or "core::" in tn or "bitvec::" in tn or "super::" in tn or "deeper::" in tn
+                       or tn in ("Duration", "NonZeroU8", "NonZeroI32", "NonZeroU128") or tn.startswith("BitVec")
+                       or tn.startswith("Range"))
+                f["tn"] = "*" if odd else tn
+        out.append(e)
+    return out
+
+
+def check_e0(wd):
+    """Register(program) of the mirrored corpus must equal what the real derive produced."""
+    corpus_path = os.path.join(wd, "corpus.ndjson")
+    subprocess.run([VH, "corpus", corpus_path], check=True)
+    real = {e["name"]: e["reg"] for e in read_ndjson(corpus_path)}
+    out = tlc_run(os.path.join(SPEC, "mc", "E0_Corpus.tla"), os.path.join(SPEC, "mc", "E0_Corpus.cfg"),
+                  os.path.join(wd, "e0.out"), os.path.join(wd, "mde0"), workers=1, timeout=300)
+    tlc_summary(out)
+    model = {r["name"]: r["reg"] for r in tlc_lines(out, "E0 ")}
+    if len(model) < 25:
+        raise ToolError("E0: too few mirrored programs")
+    for n, m in model.items():
+        if n not in real:
+            raise ToolError(f"E0: corpus has no entry {n}")
+        if _e0_strip(m) != _e0_strip(real[n]):
+            raise ToolError(f"E0: environment model ScaleInfo.tla disagrees with the real scale-info derive on {n}")
+    return len(model), read_ndjson(corpus_path)
+
+
+# ------------------------------------------------------------------------------------------
 # C15 formatter
 
 def balanced_strings_from_sim(wd, seed, num, res):
@@ -322,7 +370,13 @@ def check_c15(tier, seed):
     return res.finish()
 
 
-CHECKS = {"C15": check_c15}
+def check_e0_cmd(tier, seed):
+    n, _ = check_e0(workdir("e0"))
+    print(f"E0 ok: {n} mirrored programs")
+    return 0
+
+
+CHECKS = {"C15": check_c15, "E0": check_e0_cmd}
 
 
 def selfcheck():
